@@ -18,7 +18,8 @@ META = {
                    'worst shipped residual, 1.5e-9 for qshift_32): equality with dtcwt.coeffs (tolerance 0: exact), symmetry of h0o,h1o,g0o,g1o,h2o,g2o, '
                    'level-1 PR h0o*g0o + h1o*g1o = delta, q-shift double-shift orthonormality of (h0a,h1a) and (h0b,h1b), tree b = reverse(tree a), '
                    'synthesis = reverse(analysis), incl. h2*/g2* of the band-pass variants. The use of these identities is checked by C06/C09.',
-    'bounds': {'tables': LEVEL1 + QSHIFT, 'reported, not claimed': UNDOC, 'exhaustive': True},
+    'bounds': {'added_families': ['length of the tuple each loader returns', 'level1(compact=False/True) and qshift() called on the same name between two loads'],
+               'tables': LEVEL1 + QSHIFT, 'reported, not claimed': UNDOC, 'exhaustive': True},
     'outside': 'farras and near_sym_a2 have no reference counterpart and are not documented by the q-shift/level-1 loaders: their identities are reported only',
     'assumptions': ['tolerance 1e-8 for identities that hold only up to the precision the tables were designed to'],
 }
